@@ -152,7 +152,8 @@ class Block(Entity):
         except Exception:
             # a refused creation must not leave a half-created tag behind
             if name in tags:
-                tags.delete(name)
+                # (the container group stays: handles are bound to it)
+                tags.delete(name, delete_if_empty=False)
             raise
         return tag
 
@@ -266,7 +267,8 @@ class Block(Entity):
         except Exception:
             # a refused creation must not leave a half-created array behind
             if name in data_arrays:
-                data_arrays.delete(name)
+                # (the container group stays: handles are bound to it)
+                data_arrays.delete(name, delete_if_empty=False)
             raise
         return da
 
